@@ -1,7 +1,7 @@
 /-
 Engine `WfState` (DESIGN §5.2, property C03): shared definitions of the workflow-state model and spec.
 
-A workflow is a list of nodes in construction order.  Every node is the task `Enc(tag, x, y, z) -> [tag, x, y, z]`
+A workflow is a list of nodes in construction order.  Every node is the task `Enc5(tag, x, y, z, u, v) -> [tag, x, y, z, u, v]`
 (its output encodes its inputs, so routing is visible in the outputs).  Node names are positions (`Nat`), fields an
 enumeration: everything below is kernel-evaluable (`decide +kernel`) and free of `String` comparisons.
 
@@ -14,10 +14,10 @@ namespace PydraModel.WfState
 abbrev Name := Nat
 
 /-- Input fields of the encoder task, in the task's field order. -/
-inductive Fld | x | y | z
+inductive Fld | x | y | z | u | v
   deriving DecidableEq, Repr, Inhabited
 
-def Fld.all : List Fld := [.x, .y, .z]
+def Fld.all : List Fld := [.x, .y, .z, .u, .v]
 
 /-- A dotted state key `"<node>.<field>"` (pydra: `f"{name}.{field}"`). -/
 abbrev Key := Name × Fld
@@ -54,11 +54,13 @@ structure Node where
   z : Src
   split : Split
   comb : List Key                -- combiner, dotted names (own fields dotted with the node's own name)
-  nested : Bool := false         -- the node is itself a workflow (`ia = Enc(tag, x, y, z); ib = Enc(tag, ia.out)`)
+  nested : Bool := false         -- the node is itself a workflow (`ia = Enc5(tag, x, y, z, u, v); ib = Enc5(tag, ia.out)`)
   /-- `State.current_combiner`: the combiner keys pydra treats as the node's *own* — those whose dotted string CONTAINS the
       node's name (`self.name in comb`, a substring test).  `none` = exactly the keys of the node itself (what it is whenever
       no node name is a substring of another node's dotted key); the driver computes it from the real strings. -/
   ownCombOverride : Option (List Key) := none
+  u : Src := .none               -- fourth and fifth input field (fan-ins of more than three upstream nodes)
+  v : Src := .none
   deriving Repr, Inhabited
 
 /-- The combiner keys classified as "current" by `State.current_combiner`. -/
@@ -71,11 +73,13 @@ def Node.src (nd : Node) : Fld → Src
   | .x => nd.x
   | .y => nd.y
   | .z => nd.z
+  | .u => nd.u
+  | .v => nd.v
 
-/-- What one job of the node returns: the encoder's `[tag, x, y, z]`; a nested-workflow node wraps it once more. -/
-def Node.encode (nd : Node) (vx vy vz : Val) : Val :=
-  if nd.nested then .list [.tag nd.name, .list [.tag nd.name, vx, vy, vz], .null, .null]
-  else .list [.tag nd.name, vx, vy, vz]
+/-- What one job of the node returns: the encoder's `[tag, x, y, z, u, v]`; a nested-workflow node wraps it once more. -/
+def Node.encode (nd : Node) (vx vy vz vu vv : Val) : Val :=
+  if nd.nested then .list [.tag nd.name, .list [.tag nd.name, vx, vy, vz, vu, vv], .null, .null, .null, .null]
+  else .list [.tag nd.name, vx, vy, vz, vu, vv]
 
 structure Wf where
   nodes : List Node
